@@ -64,6 +64,14 @@ def discharge(ob, timeout_ms=20000, seed=0, both=False):
     for p in ob.pc:
         s.add(p)
     if ob.expect_sat:
+        # bounded universal quantifiers over sequences: the solvers answer `unknown` on satisfiability; a model of
+        # finitely many instances whose ranges it covers is a model (tried first: cheap when it applies)
+        bm = bounded_instance_model(ob.pc, min(timeout_ms, 8000), seed)
+        if bm is not None:
+            out = {'status': 'proved', 'backend': 'z3-bounded-instances', 'time': time.time() - t0, 'detail': 'cover sat'}
+            if ob.kind == 'xcheck':
+                out['model'] = bm
+            return out
         r = s.check()
         dt = time.time() - t0
         if r == z3.sat:
@@ -130,6 +138,167 @@ def discharge(ob, timeout_ms=20000, seed=0, both=False):
             return out
         return {'status': 'unknown', 'backend': 'z3+cvc5', 'time': time.time() - t0, 'detail': f'z3: {s2.reason_unknown()}; cvc5: {msg or v}'}
     return res
+
+
+def _match_bounded_forall(f):
+    """f == ForAll([i], Implies(And(lo <= i, i < hi, ...), body)) (the shape seqspec._quant builds, possibly rewritten by
+    the simplifier to Or(Not(And(..)), body)) -> (lo, hi) else None"""
+    if not (z3.is_quantifier(f) and f.is_forall() and f.num_vars() == 1 and f.var_sort(0) == z3.IntSort()):
+        return None
+    b = f.body()
+    g = None
+    if z3.is_app(b) and b.decl().kind() == z3.Z3_OP_IMPLIES:
+        g = b.arg(0)
+    elif z3.is_app(b) and b.decl().kind() == z3.Z3_OP_OR:
+        for c in b.children():
+            if z3.is_app(c) and c.decl().kind() == z3.Z3_OP_NOT:
+                g = c.arg(0)
+                break
+    if g is None:
+        return None
+    conj = g.children() if z3.is_app(g) and g.decl().kind() == z3.Z3_OP_AND else [g]
+    lo = hi = None
+    for c in conj:
+        neg = False
+        if z3.is_app(c) and c.decl().kind() == z3.Z3_OP_NOT:
+            neg, c = True, c.arg(0)
+        if not z3.is_app(c) or c.num_args() != 2:
+            continue
+        k = c.decl().kind()
+        a0, a1 = c.arg(0), c.arg(1)
+        if not neg:
+            if k == z3.Z3_OP_LE and z3.is_var(a1) and lo is None and not _has_var(a0):
+                lo = a0  # lo <= i
+            elif k == z3.Z3_OP_GE and z3.is_var(a0) and lo is None and not _has_var(a1):
+                lo = a1  # i >= lo
+            elif k == z3.Z3_OP_LT and z3.is_var(a0) and hi is None and not _has_var(a1):
+                hi = a1  # i < hi
+            elif k == z3.Z3_OP_GT and z3.is_var(a1) and hi is None and not _has_var(a0):
+                hi = a0  # hi > i
+        else:
+            if k == z3.Z3_OP_LE and z3.is_var(a1) and hi is None and not _has_var(a0):
+                hi = a0  # not (hi <= i)
+            elif k == z3.Z3_OP_GE and z3.is_var(a0) and hi is None and not _has_var(a1):
+                hi = a1  # not (i >= hi)
+    if lo is None or hi is None:
+        return None
+    return lo, hi
+
+
+def _has_var(t):
+    stack = [t]
+    while stack:
+        x = stack.pop()
+        if z3.is_var(x):
+            return True
+        if z3.is_app(x):
+            stack.extend(x.children())
+    return False
+
+
+def _top_conjuncts(f):
+    if z3.is_app(f) and f.decl().kind() == z3.Z3_OP_AND:
+        out = []
+        for c in f.children():
+            out.extend(_top_conjuncts(c))
+        return out
+    return [f]
+
+
+def bounded_instance_model(pc, timeout_ms, seed=0, window=5, max_len=3):
+    """satisfiability of a path condition with bounded universal quantifiers (`forall(lo, hi, f)` of the clause
+    language), which the solvers answer `unknown` on over sequences: every such quantifier is replaced by its instances
+    at -1 .. window, all sequence constants are limited to max_len elements, and a model of that *weaker* formula is
+    accepted only if the range [lo, hi) of every replaced quantifier lies inside the instantiated window in the model
+    (then every instance that matters was asserted, so the model satisfies the original formula).  Returns the
+    model or None."""
+    flat = []
+    for p in pc:
+        flat.extend(_top_conjuncts(p))
+    qs = []
+    rest = []
+    for f in flat:
+        if z3.is_quantifier(f):
+            m = _match_bounded_forall(f)
+            if m is None:
+                return None
+            qs.append((f, m[0], m[1]))
+        else:
+            # a quantifier below a connective: give up (polarity unknown)
+            stack = [f]
+            seen = set()
+            while stack:
+                t = stack.pop()
+                if t.get_id() in seen:
+                    continue
+                seen.add(t.get_id())
+                if z3.is_quantifier(t):
+                    return None
+                if z3.is_app(t):
+                    stack.extend(t.children())
+            rest.append(f)
+    if not qs:
+        return None
+    consts = {}
+    seen = set()
+    stack = list(rest) + [f.body() for f, _, _ in qs]
+    while stack:
+        t = stack.pop()
+        if t.get_id() in seen:
+            continue
+        seen.add(t.get_id())
+        if z3.is_const(t) and t.decl().kind() == z3.Z3_OP_UNINTERPRETED and t.sort().kind() == z3.Z3_SEQ_SORT:
+            consts[t.get_id()] = t
+        if z3.is_app(t):
+            stack.extend(t.children())
+    # make the sequences explicit: every sequence constant becomes a concatenation of n fresh elements (n = 1, 0, 2),
+    # so that the instantiated problem is (almost) ground arithmetic; a model of it is a model of the original
+    for n in (1, 0, 2):
+        sub = []
+        pins = []
+        cnt = [0]
+
+        def explicit(sort, depth=0):
+            es = sort.basis()
+            elems = []
+            for _ in range(n):
+                cnt[0] += 1
+                if es.kind() == z3.Z3_SEQ_SORT and depth < 2:
+                    elems.append(explicit(es, depth + 1))
+                else:
+                    elems.append(z3.Const(f'bi!e{cnt[0]}', es))
+            if not elems:
+                return z3.Empty(sort)
+            units = [z3.Unit(e) for e in elems]
+            return units[0] if len(units) == 1 else z3.Concat(*units)
+
+        for c in consts.values():
+            v = explicit(c.sort())
+            sub.append((c, v))
+        win = n + 1
+        s = _solver(max(1500, timeout_ms // 3), seed)
+        inst = []
+        for f in rest:
+            inst.append(f)
+        for f, lo, hi in qs:
+            for v in range(-1, win + 1):
+                inst.append(z3.substitute_vars(f.body(), z3.IntVal(v)))
+            inst.append(lo >= -1)
+            inst.append(hi <= win + 1)
+        for g in inst:
+            s.add(z3.simplify(z3.substitute(g, *sub)))
+        if s.check() != z3.sat:
+            continue
+        m = s.model()
+        # a model over the original constants: pin every sequence constant to its explicit value
+        s2 = _solver(max(1500, timeout_ms // 3), seed)
+        for g in inst:
+            s2.add(g)
+        for c, v in sub:
+            s2.add(c == m.eval(v, model_completion=True))
+        if s2.check() == z3.sat:
+            return s2.model()
+    return None
 
 
 def _seq_syms(v, heap, out, seen):
